@@ -260,6 +260,19 @@ def gen_typemap(repo):
 
 @register("Nested")
 def gen_nested(repo):
+    """fails soft (the driver imports this module): an unrecognised source yields the facts the model was written for with
+    `recognised := false`, which breaks `nested_facts_recognised_now` (C15) only, and the harness still runs"""
+    try:
+        return _gen_nested(repo).replace("end PqV.Gen.Nested", "def recognised : Bool := true\nend PqV.Gen.Nested")
+    except Exception as e:  # noqa
+        msg = str(e).replace('"', "'")[:200]
+        return ("-- REGENERATED from fastparquet/core.py - the source was NOT recognised: " + msg + "\n"
+                "namespace PqV.Gen.Nested\n"
+                "def chainByZeros : Bool := true\ndef keyByLeafName : Bool := true\ndef recognised : Bool := false\n"
+                "end PqV.Gen.Nested\n")
+
+
+def _gen_nested(repo):
     """core.py: how `read_col` chains `_assemble_objects` over v1 pages, and how
     `read_row_group_arrays` decides which of the two MAP leaves is the key."""
     src = open(os.path.join(repo, "fastparquet", "core.py")).read()
